@@ -338,8 +338,10 @@ def run(ctx):
                 "model_prediction": c["exp"] if c else None, "recorded": lines.get(v["trace"])}
 
     distinct = {vlib.canon([v[k] for k in ("fmt", "base", "patches", "trunc", "fix", "mode")]) for v in vecs}
+    # level: the structural space is enumerated (and, in the quick tier, exhausted) by TLC, but the property
+    # speaks of every byte stream: DESIGN 4 C37 / 6 claim it at exploration level
     return vlib.finish(
-        ctx, "model_checking",
+        ctx, "exploration",
         rule="vectors = every terminal state of the TLC run of Readers.tla: per base file the intact file, every truncation "
              "offset and every (field, boundary value) mutation%s, each run under the stated io.Reader delivery modes; one "
              "evaluation = NoPanic / ProgressOrStop judged by TLC on the recorded run of one vector; distinct = distinct "
